@@ -109,9 +109,9 @@ func Gen(t *rapid.T) Case {
 		rq.Outcome = rapid.SampledFrom(outcomes).Draw(t, "outcome")
 		switch rq.Outcome {
 		case "mwerror", "mwerror-nil":
-			rq.Code = rapid.SampledFrom([]int{400, 404, 409, 422, 500, 503, 0, -1}).Draw(t, "code")
+			rq.Code = rapid.SampledFrom([]int{400, 404, 409, 422, 500, 503, 0, -1, 499, 420, 599, 306}).Draw(t, "code")
 		case "errstatus", "errcomposite":
-			rq.Code = rapid.SampledFrom([]int{400, 404, 409, 418, 500, 503}).Draw(t, "code")
+			rq.Code = rapid.SampledFrom([]int{400, 404, 409, 418, 500, 503, 499, 599}).Draw(t, "code")
 		}
 		c.Reqs = append(c.Reqs, rq)
 	}
